@@ -239,6 +239,48 @@ func cmdCheck(args []string) int {
 			inconclusive = append(inconclusive, "replay failed: "+err.Error())
 		}
 	}
+	// differential validation of the engine: replay a few passing paths natively and
+	// compare how they end (returned / blocked)
+	if !*noReplay {
+		var vecs []replayVec
+		var want []string
+		perPkg := map[string][]int{}
+		for _, s := range samples {
+			oc, _ := s["outcome"].(string)
+			if oc != "returned" && oc != "blocked" {
+				continue
+			}
+			job, _ := s["job"].(map[string]string)
+			ins, _ := s["inputs"].(map[string]uint64)
+			if job == nil || len(vecs) >= 8 {
+				continue
+			}
+			_, fn := pkgRelOfHarness(job["__harness"])
+			vecs = append(vecs, replayVec{Harness: fn, Vals: ins, Job: job, Kind: "sample", Label: oc})
+			want = append(want, oc)
+			rel, _ := pkgRelOfHarness(job["__harness"])
+			perPkg[rel] = append(perPkg[rel], len(vecs)-1)
+		}
+		os.MkdirAll(replayDir, 0o755)
+		for rel, idxs := range perPkg {
+			var vs []replayVec
+			for _, i := range idxs {
+				vs = append(vs, vecs[i])
+			}
+			res, _, err := runNative(prog, replayDir, rel, vs, "samples_"+strings.ReplaceAll(rel, "/", "_"))
+			if err != nil {
+				inconclusive = append(inconclusive, "sample replay failed: "+err.Error())
+				continue
+			}
+			for k, i := range idxs {
+				got := res[k]
+				replayed++
+				if !strings.HasPrefix(got, want[i]) {
+					inconclusive = append(inconclusive, fmt.Sprintf("ENGINE-DISAGREEMENT on a passing sample: engine %q, native %q (job %v vals %v)", want[i], got, vecs[i].Job, vecs[i].Vals))
+				}
+			}
+		}
+	}
 	known := loadKnown()
 	exit := 0
 	nviol := 0
